@@ -8,6 +8,8 @@ CONSTANTS
   LH = 1
   MaxArgsH = 1
   MaxSpare = 0
+  LG = 1
+  MaxFeats = 1
   Kinds = {}
 INVARIANT Emit
 POSTCONDITION Consumed
